@@ -84,12 +84,18 @@ func (a Acc) term() string {
 	return App("Account", N(a.Key), Bool(a.Signer), Bool(a.Prot), Bool(a.Multi), Bool(a.Dist), Bool(a.Fail))
 }
 
+// One recorder serves a whole session (all requests made to one signer instance, possibly
+// concurrently): a signature made for an earlier request and handed out again later keeps the
+// provenance of the call that really made it.
 type recorder struct {
+	mu    sync.Mutex
 	prov  map[string]string // signature bytes -> provenance term
 	calls int
 }
 
 func (r *recorder) note(sig e2types.Signature, term string) {
+	r.mu.Lock()
+	defer r.mu.Unlock()
 	r.calls++
 	k := string(sig.Marshal())
 	if _, ok := r.prov[k]; !ok {
@@ -388,10 +394,36 @@ func (c ChainDesc) versionAt(epoch uint64) [4]byte {
 	return version4(v)
 }
 
+// The domain provider lives as long as the signer service.  What is particular to one request of
+// a session (does the node answer at all; which calls the request made) travels in the request's
+// context as a *stepEnv, so that requests made concurrently on one service do not share it.
 type domainProvider struct {
 	chain ChainDesc
+	def   stepEnv // requests made without a stepEnv in their context
+}
+
+type stepEnv struct {
+	mu    sync.Mutex
 	fail  bool
 	calls []string
+}
+
+type stepEnvKey struct{}
+
+func withStepEnv(ctx context.Context, e *stepEnv) context.Context {
+	return context.WithValue(ctx, stepEnvKey{}, e)
+}
+
+// note records the call and says whether the provider is to fail for this request.
+func (p *domainProvider) note(ctx context.Context, call string) bool {
+	e, ok := ctx.Value(stepEnvKey{}).(*stepEnv)
+	if !ok {
+		e = &p.def
+	}
+	e.mu.Lock()
+	defer e.mu.Unlock()
+	e.calls = append(e.calls, call)
+	return e.fail
 }
 
 var builderDomainType = phase0.DomainType{0, 0, 0, 1}
@@ -404,17 +436,15 @@ func (p *domainProvider) gvrFor(domainType phase0.DomainType) chunk {
 	return toChunk(unhex(p.chain.GVR))
 }
 
-func (p *domainProvider) Domain(_ context.Context, domainType phase0.DomainType, epoch phase0.Epoch) (phase0.Domain, error) {
-	p.calls = append(p.calls, fmt.Sprintf("domain %x @%d", domainType[:], uint64(epoch)))
-	if p.fail {
+func (p *domainProvider) Domain(ctx context.Context, domainType phase0.DomainType, epoch phase0.Epoch) (phase0.Domain, error) {
+	if p.note(ctx, fmt.Sprintf("domain %x @%d", domainType[:], uint64(epoch))) {
 		return phase0.Domain{}, errors.New("mock domain provider fails")
 	}
 	return phase0.Domain(specComputeDomain(domainType, p.chain.versionAt(uint64(epoch)), p.gvrFor(domainType))), nil
 }
 
-func (p *domainProvider) GenesisDomain(_ context.Context, domainType phase0.DomainType) (phase0.Domain, error) {
-	p.calls = append(p.calls, fmt.Sprintf("genesis-domain %x", domainType[:]))
-	if p.fail {
+func (p *domainProvider) GenesisDomain(ctx context.Context, domainType phase0.DomainType) (phase0.Domain, error) {
+	if p.note(ctx, fmt.Sprintf("genesis-domain %x", domainType[:])) {
 		return phase0.Domain{}, errors.New("mock domain provider fails")
 	}
 	return phase0.Domain(specComputeDomain(domainType, version4(p.chain.GenesisVersion), p.gvrFor(domainType))), nil
